@@ -23,8 +23,8 @@ type SV struct {
 	untyped bool
 	pkg     *types.Package // package reference (for pkg.Name selectors)
 	tname   types.Type     // a type used as a value (conversion target / typeis argument)
-	all     bool // the [*] index marker
-	wlog    bool // the emission log of a writer (assigns location)
+	all     bool           // the [*] index marker
+	wlog    bool           // the emission log of a writer (assigns location)
 }
 
 type evalEnv struct {
@@ -439,7 +439,7 @@ func (env *evalEnv) index(v *ast.IndexExpr) SV {
 		if idx.all {
 			return SV{all: true, t: base.t, typ: t.Elem(), addr: &Addr{elem: true, ref: tb.SRef(base.t), root: t.Elem()}}
 		}
-		ad := &Addr{elem: true, ref: tb.SRef(base.t), idx: tb.Add(tb.SOff(base.t), idx.t), root: t.Elem()}
+		ad := &Addr{elem: true, ref: tb.SRef(base.t), idx: tb.Add(tb.SOff(base.t), idx.t), off: tb.SOff(base.t), rel: idx.t, root: t.Elem()}
 		r := e.load(env.st, ad)
 		e.assumeWF(tb.True(), t.Elem(), r)
 		return SV{t: r, typ: t.Elem(), addr: ad}
@@ -542,6 +542,9 @@ func (env *evalEnv) call(v *ast.CallExpr) SV {
 			if _, ok := a.typ.Underlying().(*types.Array); ok {
 				return SV{t: tb.Int(a.typ.Underlying().(*types.Array).Len()), typ: types.Typ[types.Int]}
 			}
+			if _, ok := a.typ.Underlying().(*types.Map); ok {
+				return SV{t: tb.Ite(tb.Eq(a.t, tb.Int(0)), tb.Int(0), e.mapLen(env.st, a.t)), typ: types.Typ[types.Int]}
+			}
 			env.fail("len of %s", a.typ)
 		case "cap":
 			a := env.eval(v.Args[0])
@@ -606,6 +609,13 @@ func (env *evalEnv) call(v *ast.CallExpr) SV {
 		case "floor":
 			a := env.eval(v.Args[0])
 			return SV{t: tb.ToReal(tb.ToInt(a.t)), typ: types.Typ[types.Float64]}
+		case "haskey":
+			m, k := env.eval(v.Args[0]), env.eval(v.Args[1])
+			if _, ok := m.typ.Underlying().(*types.Map); !ok {
+				env.fail("haskey needs a Go map")
+			}
+			_, has, _ := e.mapRegs(m.typ)
+			return SV{t: tb.And(tb.Not(tb.Eq(m.t, tb.Int(0))), tb.Select(tb.Select(e.reg(env.st, has), m.t), k.t)), typ: boolT}
 		case "log":
 			w := env.eval(v.Args[0])
 			return SV{wlog: true, t: e.writerRef(w.t, w.typ), typ: types.Typ[types.Int]}
